@@ -397,6 +397,8 @@ PROPS["C17"] = {
          "quick": {"checks": 500, "shards": 4}, "thorough": {"checks": 5000, "shards": 16}},
         {"name": "concurrent-first", "mode": "plain", "test": "TestC17Concurrent",
          "quick": {"checks": 2500, "shards": 4}, "thorough": {"checks": 40000, "shards": 8}},
+        {"name": "wipe-under-load", "mode": "plain", "test": "TestC17Wipe",
+         "quick": {"checks": 300, "shards": 4}, "thorough": {"checks": 10000, "shards": 8}},
         {"name": "concurrent-create", "mode": "plain", "test": "TestC17Create",
          "quick": {"checks": 400, "shards": 4}, "thorough": {"checks": 20000, "shards": 8}},
     ],
@@ -646,3 +648,4 @@ PROPS["C15"]["rule"] += " In half of the sys.System cases A and B have a parent 
 PROPS["C15"]["rule"] += " A third part (crolt-glue) covers the persistent service end to end, in process: locations whose state hooks use cron.CroltSimple, whose HTTP client is routed to the handlers of the real crolt (package main, injected with -overlay; no network; firing loop not started); histories (2-14 ops) of adding scheduled rules (cron expressions, '+d', '!t', '@yearly'), writing them again with another schedule, overwriting them with ordinary rules or facts, RemRule, Clear, Delete and reload over two locations; after every op crolt's job table must hold exactly one job per live scheduled rule, with that rule's current schedule and an event that names the rule and its location; non-trivial = a scheduled rule was overwritten or removed."
 PROPS["C12"]["rule"] += " Every event's result (the work) is encoded as JSON by the client, as the service does before it answers."
 PROPS["C20"]["rule"] += " A fourth part (capacity-concurrent): 2-8 clients add 1-3 facts or rules each, with distinct ids, to one location with MaxFacts 1..6 and 0..max facts stored beforehand, at the same time (spin delays, schedule noise at the lock boundaries); afterwards the location holds <= max items, no more adds succeeded than there was room for (and not fewer, when enough were attempted), every acknowledged item is there and no refused one is; non-trivial = more adds than room."
+PROPS["C17"]["rule"] += " A fourth part (wipe-under-load): 1-3 requests that run a script which sleeps 2-20 ms and then writes a fact, 0-3 clients that write three facts each, and one DeleteLocation or ClearLocation issued 0-6 ms into the burst, all on one location (TTL forever, 1 h or 1 ms; schedule noise); a write that started after the wipe had returned - also one made by a script whose request began before the wipe - must be acknowledged, readable by its writer at once and still there at the end; non-trivial = at least one such write."
